@@ -406,7 +406,8 @@ class Simulator:
 
         for t_end, pars in protocol.iterrows():
             t_end = cast(pd.Timedelta, t_end)
-            self.model.update_parameters(pars.to_dict())
+            # A parameter a step does not name (NaN in the table) keeps its value
+            self.model.update_parameters(pars.dropna().to_dict())
             self.simulate(t_start + t_end.total_seconds(), steps=time_points_per_step)
             if self.variables is None:
                 break
@@ -470,7 +471,8 @@ class Simulator:
         full_time_points = protocol.index.join(pd.Index(time_points), how="outer")
 
         for t_end, pars in protocol.iterrows():
-            self.model.update_parameters(pars.to_dict())
+            # A parameter a step does not name (NaN in the table) keeps its value
+            self.model.update_parameters(pars.dropna().to_dict())
 
             self.simulate_time_course(
                 time_points=full_time_points[
